@@ -31,6 +31,10 @@ def nbc_reference(genomes, fits, maximize, factor, trunc, band=1e-9):
         return "OK", {root}, set(), {}
     mean = float(np.mean(list(d.values())))
     thr = factor * mean
+    if all(v == math.floor(v) and v < 2.0 ** 40 for v in d.values()):
+        # whole-number distances: their sum is exact in any summation order, so the mean and the cut are the same
+        # floating-point numbers however they are accumulated - the strict comparison of the definition is decidable
+        band = 0.0
     sure = {root} | {i for i, v in d.items() if v > thr * (1 + band)}
-    maybe = {i for i, v in d.items() if abs(v - thr) <= thr * band}
+    maybe = {i for i, v in d.items() if abs(v - thr) <= thr * band} if band > 0 else set()
     return "OK", sure, maybe, d
